@@ -156,6 +156,14 @@ func verifDir() string {
 	return "/verif"
 }
 
+// outDir is where evidence, replays and scratch files go (VERIF_OUT: scratch runs only).
+func outDir() string {
+	if d := os.Getenv("VERIF_OUT"); d != "" {
+		return d
+	}
+	return verifDir()
+}
+
 func runTask(eng *Engine, t *Task, solverBin string, timeout time.Duration, unwind int, sampleOK int, second string, verbose bool, labelPrefix ...string) (tr TaskResult) {
 	tr.Task = t
 	t0 := time.Now()
